@@ -350,6 +350,16 @@ fn body_decls(out: &mut Vec<Decl>) {
     push(w5, vec![find(w5, "from_word = f", 0)], &[0]);
     let w6 = "#[darling(from_word = f)] enum E { #[darling(word)] A, #[darling(word)] B }";
     push(w6, vec![find(w6, "from_word = f", 0), find(w6, "word", 1), find(w6, "word", 2)], &[0]);
+    // the word rules do not look at `skip` (a skipped variant still declares a word)
+    for sk in ["skip, word", "word, skip", "skip = true, word"] {
+        let w7 = format!("enum E {{ #[darling({sk})] A, #[darling(word)] B, C }}");
+        push(&w7, vec![find(&w7, "word", 0), find(&w7, "word", 1)], &[0]);
+        let w8 = format!("enum E {{ C, #[darling(word)] B, #[darling(skip)] #[darling(word)] A }}");
+        push(&w8, vec![find(&w8, "word", 0), find(&w8, "word", 1)], &[0]);
+        let w9 = format!("#[darling(from_word = f)] enum E {{ #[darling({sk})] A, B }}");
+        push(&w9, vec![find(&w9, "from_word = f", 0)], &[0]);
+    }
+    push("enum E { #[darling(skip, word)] A, B }", vec![], &[0]);
     push("#[darling(from_word = f)] enum E { A, B }", vec![], &[0]);
     push("#[darling(from_word = f)] struct S { a: u8 }", vec![], &[0]);
     let fw1 = "#[darling(from_word = f)] struct S;";
